@@ -495,7 +495,13 @@ class Peer:
         """Reads KEEPALIVE message using async I/O"""
         assert self.proto is not None
         assert self.recv_timer is not None
-        message = await self.proto.read_keepalive()
+        # RFC 4271 8.2.2, OpenConfirm: the hold timer runs with the negotiated value. Nothing looked at it while
+        # this read was pending, so a peer which sent its OPEN and then nothing was waited for for ever.
+        holdtime = self.proto.negotiated.holdtime
+        try:
+            message = await asyncio.wait_for(self.proto.read_keepalive(), timeout=holdtime if holdtime else None)
+        except asyncio.TimeoutError:
+            raise Notify(4, 0, 'hold timer expired waiting for the KEEPALIVE which confirms the OPEN') from None
         self.recv_timer.check_ka_timer(message)
 
     async def _establish(self) -> None:
